@@ -8,10 +8,12 @@ import ast
 
 from ..source import AnalysisError, norm, dotted, walk_no_nested
 from ..grammar import load_dialect
+from ..lexmodel import spelling
 from .C19 import rewritten_value_tokens
 
 UTILS = 'mindsdb_sql/parser/utils.py'
 STORE_FIELDS = {'query_str', 'if_query_str', 'query'}
+RAW = 'raw_query'
 
 
 def local_bindings(fn, prod, pvar):
@@ -95,6 +97,77 @@ def positions(e, prod, pvar='p', env=None):
         if prod.rhs[i] == prod.name:
             return [i]
     raise AnalysisError(f'raw_query action: unmodelled expression `{norm(e)}`')
+
+
+SENTINELS = ["select {{ a }}, '{{b}} ; x' from T where `Mixed Name` = 'It''s'  -- c", 'SELECT  1;\n\n select 2']
+
+
+def check_stored_as_rebuilt(ctx, g, embed):
+    """Every action that embeds a raw query is interpreted (with the real constructors of the node classes) with tokens_to_string standing in as a function that
+    returns a known text: the text the node then holds in query_str / if_query_str / query - and what its printer writes for it - must be that text, character
+    for character.  A constructor or an action that `normalises` the text (case, white space, template markers) also rewrites the literals inside it."""
+    from ..interp import Interp, Obj, Raised, Env
+    from ..grammar import prod_record
+    from . import C04
+    ast_files = tuple(sorted(f for f in ctx.src.py_files('mindsdb_sql/parser') if '/ast/' in f or f.endswith('create_job.py') or '/dialects/mindsdb/' in f and not f.endswith('parser.py')
+                             and not f.endswith('lexer.py')))
+    tok_stubs = C04.lexer_token_stubs(ctx)
+    n = nskip = 0
+    for p_ in embed:
+        fn = p_.func
+        raws = [i for i, s_ in enumerate(p_.rhs) if s_ == RAW]
+        for sent in SENTINELS:
+            texts = {}
+            values = []
+            for i, s_ in enumerate(p_.rhs):
+                if s_ == RAW:
+                    texts[i] = sent + ('' if i == raws[0] else ' /*2*/')
+                    values.append([Obj('Token', type='RAW', value=texts[i], index=0, end=len(texts[i]), lineno=1, _text=texts[i])])
+                elif s_ in g.tokens:
+                    values.append(spelling(g.lexer, s_) or s_)
+                elif s_ == 'identifier':
+                    values.append(Obj('Identifier', parts=['n' + str(i)], alias=None, parentheses=False))
+                elif s_ in ('if_not_exists_or_empty', 'replace_or_empty'):
+                    values.append(False)
+                elif s_ == 'result_columns':
+                    values.append([Obj('Identifier', parts=['c'], alias=None, parentheses=False)])
+                elif s_ == 'column_list':
+                    values.append(['c'])
+                elif s_ == 'job_schedule':
+                    values.append({})
+                elif s_ == 'kw_parameter_list':
+                    values.append({'k': 1})
+                else:
+                    values.append(None)
+            stubs = dict(tok_stubs)
+            stubs['tokens_to_string'] = lambda it, toks: toks[0].attrs['_text'] if isinstance(toks, list) and len(toks) == 1 else '<several token lists joined>'
+            it = Interp.for_file(ctx.src, g.file, {}, stubs, also=ast_files)
+            label = f'[{p_}]:{SENTINELS.index(sent)}'
+            try:
+                node = it.call_function(fn, [Obj('Parser'), prod_record(p_, values)], {}, Env())
+            except Raised as r:
+                if r.exc_name == 'ParsingException':
+                    continue
+                ctx.note(f'{label}: the action raises {r.exc_name} on stand-in values (skipped)')
+                nskip += 1
+                continue
+            except (AnalysisError, TypeError, ValueError, AttributeError, KeyError, IndexError) as e:
+                ctx.note(f'{label}: not interpretable on stand-in values ({type(e).__name__}: {str(e)[:90]})')
+                nskip += 1
+                continue
+            if not isinstance(node, Obj):
+                nskip += 1
+                continue
+            n += 1
+            held = {k: v for k, v in node.attrs.items() if k in STORE_FIELDS and v is not None}
+            ok = sorted(held.values()) == sorted(texts.values()) if all(isinstance(v, str) for v in held.values()) else False
+            ctx.ob('C16.text-is-token-values', f'stored:{label}', ok,
+                   f'{label}: the rebuilt text(s) {list(texts.values())} are held by the {node.kind} node as {held}: the stored query is not the text tokens_to_string '
+                   f'rebuilt (a rewrite of it also rewrites the string literals inside it)', file=g.file, line=fn.lineno,
+                   witness="CREATE JOB j (select '{{a}}')")
+    ctx.setcount('stored_text_rows', n)
+    ctx.setcount('stored_text_skipped', nskip)
+    ctx.floor('stored_text_rows', 60)
 
 
 def run(ctx):
@@ -275,6 +348,7 @@ def run(ctx):
             ctx.ob('C16.order-preserving', f'{fn.name}@{fn.lineno}:two-queries', ok,
                    f'action {fn.name}: the first raw query must be stored as query_str and the second as if_query_str '
                    f'(got {dest})', file=g.file, line=fn.lineno, witness='CREATE JOB j (select 1) IF (select 2)')
+    check_stored_as_rebuilt(ctx, g, embed)
     # (3) -------------------------------------------------------------------------------------------------------------
     M = rewritten_value_tokens(lex)
     tree = ctx.src.tree(UTILS)
